@@ -27,7 +27,7 @@ PARTIAL = [
 HEADER = "From MT Require Import ApplyCases.\nImport ListNotations.\nOpen Scope list_scope.\n"
 
 FLAG_NAMES = [(1, "star"), (2, "dotted"), (4, "complete_other"), (8, "erase"), (16, "respects"), (32, "parse_or_comments"),
-              (64, "idempotence"), (128, "raised"), (256, "outside_model"), (512, "model_mismatch")]
+              (64, "idempotence"), (128, "raised"), (256, "outside_model"), (512, "model_mismatch"), (1024, "stub_unfit")]
 
 FINDING_TEXT = {
     "kf_star_param": "stub annotation of a *args / **kwargs parameter is never applied (libcst _update_parameters ignores star_arg/star_kwarg)",
@@ -77,7 +77,7 @@ def make_cases(todo):
         return pool.map(_mk, todo, chunksize=4)
 
 
-def make_case(stub, src, ow, conf, meta):
+def make_case(stub, src, ow, conf, meta, gen=False):
     """Run the real code on one input and reify input and observation."""
     out, err = real_apply(stub, src, ow, conf)
     c = {"stub": stub, "source": src, "overwrite": ow, "confine": conf, "out": out, "error": err, "meta": meta}
@@ -101,7 +101,7 @@ def make_case(stub, src, ow, conf, meta):
         idem = (out2 == out)
         c["second"] = None if idem else (out2 if out2 is not None else err2)
     c["term"] = (f"ACase {common.coq_bool(ow)} {common.coq_bool(conf)} {stub_term} {src_term} {out_term} "
-                 f"{common.coq_bool(idem)} {common.coq_bool(parses)}")
+                 f"{common.coq_bool(idem)} {common.coq_bool(parses)} {common.coq_bool(gen)}")
     return c
 
 
@@ -167,6 +167,9 @@ def classify(c, flags):
                 tag += f" lost={lost[:2]}"
         res.append((fid, f"{tag}: erase(result) differs from erase(source): something other than annotations/imports/"
                          f"generated classes changed"))
+    if flags & 1024:
+        res.append((None, f"{tag}: a function of the generated stub does not have the parameter shape of its own source "
+                          f"function, so libcst skips it and none of its annotations is applied"))
     rest = flags & (4 | 16 | 32)
     if rest:
         names = [n for b, n in FLAG_NAMES if rest & b]
@@ -225,7 +228,7 @@ def run(ctx):
                 if m.name not in stubs:
                     continue
                 stub = stubs[m.name].render()
-                todo.append((stub, src, ow, conf, f"{m.name}/subset{si}/k{k}"))
+                todo.append((stub, src, ow, conf, f"{m.name}/subset{si}/k{k}", True))
         sys.modules.pop(m.name, None)
     sys.modules.pop(shapes, None)
     if ctx.work in sys.path:
@@ -296,7 +299,8 @@ def run(ctx):
 
 
 def replay(ctx, payload):
-    c = make_case(payload["stub"], payload["source"], payload["overwrite"], payload["confine"], payload.get("meta", "replay"))
+    c = make_case(payload["stub"], payload["source"], payload["overwrite"], payload["confine"], payload.get("meta", "replay"),
+                  not str(payload.get("meta", "")).startswith("directed"))
     outs = common.run_coq_shards(ctx.work, "c15r", HEADER, [c["term"]], "acase", "bad report 0 cases")
     mpath = os.path.join(ctx.work, "c15_model.v")
     with open(mpath, "w") as f:
